@@ -411,6 +411,16 @@ package mobius
 //@   before store Account.Access assert target == c.Account && val == account.Access
 //@   before call hotline.NewField#1 assert arg0[0] == 0 && arg0[1] == 110 && same(arg1, reqdata(0, 110))
 
+// C15: the account list shown to an administrator has one entry per account the manager lists:
+// every account whose record could be serialised contributes exactly the bytes of its own record,
+// and the reply carries those entries.
+//@ func HandleListUsers(cc *hotline.ClientConn, t *hotline.Transaction) (res []hotline.Transaction)
+//@   property C15
+//@   before call hotline.NewField assert arg0[0] == 0 && arg0[1] == 101 && same(arg1, callres("io.ReadAll", 0)) && callres("io.ReadAll", 1) == nil
+//@   loop 1 reaches hotline.NewField when callres("io.ReadAll", 1) == nil
+//@   before call (*hotline.ClientConn).NewReply assert same(arg2, userFields)
+//@   before any call (*hotline.ClientConn).NewErrReply assert !priv(cc, 16)
+
 // ---------------------------------------------------------------------------------
 // C18: creating a category or bundle never replaces an existing item (which would discard its
 // articles): when the name is taken at that path the call fails and the item is untouched; when it
